@@ -203,6 +203,18 @@ public:
     }
 
     /**
+     * Determine if the META tag should be omitted in HTML output,
+     * according to the xsl:output element
+     *
+     * @return true to omit the META tag
+     */
+    bool
+    getOmitMETATag() const
+    {
+        return m_omitMETATag;
+    }
+
+    /**
      * Get the output encoding string that was specified in the
      * xsl:output element
      *
